@@ -142,6 +142,27 @@ func (c *Ctx) formatTable(fn *ssa.Function, perColumn string) (string, ssa.Instr
 		return v
 	}
 	var desc []string
+	// a format merged at a loop header depends on an earlier iteration (an earlier column's format)
+	headers := map[*ssa.BasicBlock]bool{}
+	for _, l := range core.Loops(fn) {
+		headers[l.Header] = true
+	}
+	seenPhi := map[ssa.Value]bool{}
+	var walkPhi func(v ssa.Value)
+	walkPhi = func(v ssa.Value) {
+		ph, ok := v.(*ssa.Phi)
+		if !ok || seenPhi[v] {
+			return
+		}
+		seenPhi[v] = true
+		if headers[ph.Block()] {
+			desc = append(desc, "loop-carried(format of an earlier column)")
+		}
+		for _, e := range ph.Edges {
+			walkPhi(e)
+		}
+	}
+	walkPhi(fmtArg)
 	for _, lf := range ls {
 		l := lf.v
 		u, ok := l.(*ssa.UnOp)
@@ -231,6 +252,7 @@ func runC08(c *Ctx) {
 		"(R2) the length -1 sentinel is tested by equality before the value is sliced, the NULL edge yields a nil value (distinct from the empty value) and skips GetBytes - in Bind and in the binary COPY reader alike; (R3) the format of parameter i has exactly the three protocol sources: text when no codes were sent, the single code when exactly one was sent, codes[i] under i < len(codes); " +
 		"(R4) the Bind's result-format slice (freshly allocated, element i = the i-th code read) flows unchanged into the portal, from there into Describe-portal and into the Execute result writer, and RowDescription and DataRow select the per-column format by the same decision table (none -> text, index < len -> formats[index], else formats[0]); (R5) Parameter.Scan decodes its own value with its own format and type map, and ParameterDescription announces the statement's declared list itself. " +
 		"Not decided: that pgx decodes a given byte string to the right Go value."
+	R.Explanation += " Also decided (R4): a per-column format never depends on an earlier column's format (no loop-carried value), and every pgtype Encode call of Column.Write uses the selected format parameter."
 	R.Trusted = []string{"go/types + go/ssa"}
 
 	rp, _ := c.bindDecoders()
@@ -360,9 +382,9 @@ func (c *Ctx) bindDecoders() (params, formats *ssa.Function) {
 // fmtCtx describes the format-code decoding locals of one function.
 type fmtCtx struct {
 	fn      *ssa.Function
-	count   ssa.Value       // number of format codes (GetUint16 outside the loop, sizes the slice)
-	code    ssa.Value       // the code read per iteration
-	formats *ssa.MakeSlice  // make([]FormatCode, count)
+	count   ssa.Value      // number of format codes (GetUint16 outside the loop, sizes the slice)
+	code    ssa.Value      // the code read per iteration
+	formats *ssa.MakeSlice // make([]FormatCode, count)
 }
 
 func (c *Ctx) fmtCtxOf(fn *ssa.Function) *fmtCtx {
@@ -807,6 +829,26 @@ func (c *Ctx) c08ResultFormats() {
 			where = c.at(s2)
 		}
 		R.Check(d2 == want, "C08.R4", "Columns.Write:format-table", where, "DataRow selects the per-column format by the same table", d2, "decision table is ["+d2+"], expected ["+want+"]")
+		// and the format selected is the one every encoding of the value uses (Column.Write) and the one announced (Column.Define)
+		if cw := c.P.Method("wire", "Column", "Write"); cw != nil {
+			var fp *ssa.Parameter
+			for _, p := range cw.Params {
+				if core.IsNamed(p.Type(), pkWire, "FormatCode") {
+					fp = p
+				}
+			}
+			nEnc := 0
+			for _, ci := range core.Calls(cw) {
+				f := core.StaticCallee(ci)
+				if f == nil || !core.MethodIs(f, "github.com/jackc/pgx/v5/pgtype", "Map", "Encode") {
+					continue
+				}
+				nEnc++
+				a := ci.Common().Args
+				R.Check(fp != nil && len(a) >= 3 && core.StripConv(a[2]) == ssa.Value(fp), "C08.R4", "Column.Write:encodes-in-selected-format", c.at(ci), "every encoding of a value uses the format selected for its column (the one announced), whatever the value", "Encode(.., int16(format parameter), ..)", "an Encode call in Column.Write uses a format other than the selected one: the DataRow field is not in the announced format")
+			}
+			R.Floor("C08.R4", "Encode calls in Column.Write", nEnc, 1)
+		}
 		R.Check(d1 == d2, "C08.R4", "format-table-agreement", where, "the format announced in RowDescription is the format used to encode the DataRow (sibling agreement)", "both tables: "+d1, "RowDescription and DataRow select formats differently: ["+d1+"] vs ["+d2+"]")
 	}
 }
